@@ -217,8 +217,9 @@ def hx(b):
 
 
 class Stop(Exception):
-    def __init__(self, err):
+    def __init__(self, err, sticky=True):
         self.err = err
+        self.sticky = sticky   # the failure is recorded in parser->error (every failure except a rejected declaration)
 
 
 def expected(root, prog, max_depth=0, watch=None):
@@ -235,12 +236,17 @@ def expected(root, prog, max_depth=0, watch=None):
         if n is watch:
             reached[0] = True
         if len(n.attrs) > MAX_ATTRS:
-            raise Stop(ERR_XML)
+            raise Stop(ERR_XML, sticky=False)
         attrs = [(k, attr_value(v)) for k, v in n.attrs]
         lines.append(f"P node d={depth} name={hx(n.name)} na={len(attrs)}")
         for k, v in attrs:
             lines.append(f"P attr {hx(k)} {hx(v)}")
         act = tbl.get(path_text(path), default)
+        if act == "D":
+            # ignore_traverse_error: the callback discards the result of aws_xml_node_traverse.  Every failure below
+            # (depth refusal, failing child callback, name limit, missing closing tag) is recorded in parser->error, which
+            # ends every enclosing loop and is what aws_xml_parse returns: same events, same verdict as with `d`.
+            act = "d"
         if act == "a":
             raise Stop(ERR_ABORT)
         if act in ("s", "b"):
@@ -258,6 +264,8 @@ def expected(root, prog, max_depth=0, watch=None):
         visit(root, [], 1)
         lines.append("P rc OK")
     except Stop as s:
+        if not s.sticky and ("D" in tbl.values() or default == "D"):
+            return None, reached[0]    # a rejected declaration under an error-ignoring callback: no claim
         lines.append("P rc ERR " + s.err)
     return lines, reached[0]
 
@@ -433,6 +441,8 @@ def gen_wf(rng, tier):
         r2 = rng.random()
         if r2 < 0.12:
             prog = rng.choice(["d", "d", "s", "b"])
+        elif kind in ("spine", "maxdepth") and r2 < 0.22:
+            prog = "D" if rng.random() < 0.5 else choose_prog(rng, root, md, (95, 2, 3, 0)).replace("d", "D")
         elif kind == "spine" and r2 < 0.7:
             prog = choose_prog(rng, root, md, (95, 2, 3, 0))   # reach the depth limit
         else:
@@ -468,6 +478,11 @@ def depth_limit_cases(rng, tier):
             doc = render_doc(root)
             selfcheck(root, doc)
             cases.append(wf_case(doc, "d", md, kind="depth-limit"))
+            # every callback ignores a failing traverse: the refusal must still fail the parse, nothing reported after it
+            cases.append(wf_case(doc, "D", md, kind="depth-limit-ignore"))
+            if depth > 2:
+                cases.append(wf_case(doc, "d," + "".join("/0" for _ in range(rng.randint(1, min(depth, md + 1) - 1))) + ":D", md,
+                                     kind="depth-limit-ignore"))
             # innermost element the limit lets the callback see: read as body instead of descended
             inner = "/" + "/".join(["0"] * 0)
             k = min(depth, md) - 1
@@ -478,6 +493,7 @@ def depth_limit_cases(rng, tier):
         for depth in [19, 20, 21, 30]:
             root = chain_tree(rng, depth, [b"a", b"ab"])
             cases.append(wf_case(render_doc(root), "d", md, kind="depth-limit"))
+            cases.append(wf_case(render_doc(root), "D", md, kind="depth-limit-ignore"))
     return cases
 
 
@@ -557,7 +573,9 @@ def rand_prog(rng):
     for _ in range(rng.choice([0, 0, 1, 2, 4, 8])):
         depth = rng.randint(0, 4)
         p = path_text([rng.choice([0, 0, 0, 1, 1, 2, 3]) for _ in range(depth)])
-        ov.append((p, rng.choice("dbsa" if rng.random() < 0.3 else "dbs")))
+        ov.append((p, rng.choice("dbsaD" if rng.random() < 0.3 else "dbs")))
+    if rng.random() < 0.08:
+        default = "D"
     return prog_text(default, ov)
 
 
@@ -748,6 +766,8 @@ def oracle_op(op, lines, tags):
             return ["props/c12.py: closed twin of an unclosed case does not parse"]
         x = all_nodes(root)[tags["unclosed_index"]]
         exp, reached = expected(root, prog, md, watch=x)
+        if exp is None:
+            return []
         ok = plines[-1] == "P rc OK"
         if (reached or exp[-1] != "P rc OK") and ok:
             return ["document lacking the closing tag of a reached element (or over a limit) was accepted: " + plines[-1]]
@@ -760,6 +780,8 @@ def oracle_op(op, lines, tags):
             return ["props/c12.py: well-formed case does not parse in the reference reader"]
         return []
     exp, _ = expected(root, prog, md)
+    if exp is None:
+        return []
     if plines != exp:
         return [_first_diff("well-formed document mis-reported", plines, exp)]
     return []
